@@ -121,8 +121,12 @@ fn dia_q_user_poisonable_scoped() {
 	if was { pp::set_poisoned(&pz); }
 	let panics: bool = kani::any();
 	let mut key = ThreadKey::get().unwrap();
+	w().probe_flag = pp::flag_addr(&pz);
 	let r = call::pz_scoped_lock(&pz, &mut key, |d| { assert!(d.is_err() == was, "C10_scoped_lock_reports_err_iff_poisoned"); user(panics) });
+	w().probe_flag = 0;
 	assert!(r == user(panics), "C11_user_panic_propagates_to_the_caller_and_nothing_else_does");
+	// the flag must be up BEFORE the panicking hold is released: the next holder must not see a clean lock
+	assert!(w().probe_samples == 1 && (!panics || w().probe_all_set), "C10_poisoned_before_the_panicking_hold_is_released");
 	assert!(pz.is_poisoned() == (was || panics), "C10_poisoned_iff_a_panic_unwound_during_an_exclusive_hold");
 	assert!(w().held == 0 && s.balanced_and_free(), "C11_every_lock_released_exactly_once_after_a_user_panic");
 	assert!(key_flag(), "C11_key_usable_or_obtainable_again_after_a_user_panic");
@@ -199,7 +203,10 @@ fn dia_q_guard_drop_while_panicking() {
 		0 => {
 			let g = pz.lock(key).ok().unwrap();
 			unsafe { PANICKING = unwinding; }
+			w().probe_flag = pp::flag_addr(&pz);
 			drop(g);
+			w().probe_flag = 0;
+			assert!(w().probe_samples == 1 && (!unwinding || w().probe_all_set), "C10_poisoned_before_the_panicking_hold_is_released");
 			unsafe { PANICKING = false; }
 			assert!(pz.is_poisoned() == unwinding, "C10_own_guard_dropped_during_unwinding_poisons_and_only_then");
 		}
